@@ -260,3 +260,14 @@ mut("C05", "R05.5", "undecidable-non-terminal-defaults", PA + "analysis/k_decisi
     "                Ok(decidable(grammar_config, n, max_k, first_cache, follow_cache).unwrap_or(max_k)),\n            )\n        })\n        .try_fold")
 mut("C05", "R05.1", "ok-without-test", PA + "analysis/k_decision.rs",
     "                if concatenated_k_tuples.iter().all(|(i, t1)| {", "                if current_k == max_k || concatenated_k_tuples.iter().all(|(i, t1)| {")
+# ---- C23 (thin: repetition order agreement)
+mut("C23", "R23.1", "reverse-for-lalr", PA + "generators/user_trait_generator.rs",
+    "                            && grammar_type == GrammarType::LLK,", "                            && grammar_type == GrammarType::LALR1,")
+mut("C23", "R23.1", "never-reverse", PA + "generators/user_trait_generator.rs",
+    "                            && grammar_type == GrammarType::LLK,", "                            && grammar_type != GrammarType::LLK && grammar_type != GrammarType::LALR1,")
+mut("C23", "R23.1", "ll-lists-left-recursive-in-case-2", PA + "transformation/canonicalization.rs",
+    "                                GrammarType::LLK => vec![\n                                    Factor::Group(repeat),\n                                    Factor::default_non_terminal(r_tick_name.clone()),\n                                ],",
+    "                                GrammarType::LLK => vec![\n                                    Factor::default_non_terminal(r_tick_name.clone()),\n                                    Factor::Group(repeat),\n                                ],")
+mut("C23", "R23.1", "mutable-argument-swapped", PA + "generators/user_trait_generator.rs",
+    "                                GrammarType::LLK => i == 0,\n                                GrammarType::LALR1 => i == member_count - 1,",
+    "                                GrammarType::LLK => i == member_count - 1,\n                                GrammarType::LALR1 => i == 0,")
